@@ -17,7 +17,10 @@ TECHNIQUE = ("stateless exhaustive exploration of the real engine: all DAGs up t
 LEVEL_TEXT = ("Every acyclic graph with <= 3 (quick) / <= 4 (thorough) nodes over edge kinds {none, required, group-1, group-2, optional}, "
               "<= 2 deviations of outcome / enabled / pre-seeded, every target form (single node, pair, explicit dict, component type) is run "
               "under every order the engine may choose among independent components; at-most-once, dependencies-attempted-first, seed "
-              "preservation and the dependency closure are checked on every execution. Complete within the bounds; schedules are owned, not sampled.")
+              "preservation and the dependency closure are checked on every execution. The same through the other public engines "
+              "(run_incremental / run_all with a dict, a list, a set of targets and the caller's broker), two-step histories in one process, "
+              "pre-seeded values that are None / 0, and every typed graph (datasources, parsers, combiners, registry points with prio -1/0/1) "
+              "with <= 3 (thorough 4) nodes. Complete within the bounds; schedules are owned, not sampled.")
 LEVEL_NOTE = ("Tie-breaks are owned through forced __hash__ values of the component objects (CPython iterates small sets by slot = hash); "
               "verified per run by the self-check that all N! permutations yield the expected number of distinct orders on an edgeless graph. "
               "Bounded by N <= 4.")
@@ -93,6 +96,10 @@ def targets_for(n, tier):
     ts += [["dict"], ["type"]]
     # the other public evaluation entry points: one sub-graph at a time / run_all without a pool, same caller-supplied broker
     ts += [["incr-dict"], ["all-type"]]
+    # ... and explicit target LISTS / SETS handed to them together with the caller's broker
+    if n >= 2:
+        ts += [["incr-pair", i, j] for i in range(n) for j in range(i + 1, n)]
+        ts += [["all-pair", 0, n - 1], ["incr-set", n - 2, n - 1]]
     # graphs that are NOT dependency-closed (hand-written dicts, group filters, popped nodes): only the keys take part
     if n == 3:
         ts += [["subdict", list(m)] for k in (1, 2) for m in itertools.combinations(range(n), k)]
@@ -101,7 +108,7 @@ def targets_for(n, tier):
         ts += [["incr-subdict-then-full", list(m)] for k in (1, 2) for m in itertools.combinations(range(n), k)]
         ts += [["run-adddep-run", i, j] for i in range(n) for j in range(n) if i != j]
     if n == 4:
-        ts = [["node", 3], ["dict"], ["pair", 2, 3], ["incr-dict"]]
+        ts = [["node", 3], ["dict"], ["pair", 2, 3], ["incr-dict"], ["incr-pair", 2, 3], ["incr-pair", 1, 3]]
     return ts
 
 
@@ -109,6 +116,11 @@ def units(tier, seed):
     us = [{"part": "selfcheck"}]
     us += [{"part": "shapes", "n": 1, "chunk": 0, "of": 1}, {"part": "shapes", "n": 2, "chunk": 0, "of": 1}]
     us += [{"part": "shapes", "n": 3, "chunk": c, "of": 25} for c in range(25)]
+    # typed graphs (datasources, registry points with a non-zero "prio", parsers, combiners): the engine sorts by the
+    # registry points' prio when it splits a graph - no priority may ever reorder a component before its dependency
+    us += [{"part": "prio", "n": 2, "chunk": 0, "of": 1}] + [{"part": "prio", "n": 3, "chunk": c, "of": 4} for c in range(4)]
+    if tier == "thorough":
+        us += [{"part": "prio", "n": 4, "chunk": c, "of": 100} for c in range(100)]
     if tier == "quick":
         # depth-3 chains need 4 nodes: all required-edge-only 4-node DAGs, <= 1 deviation
         us += [{"part": "shapes", "n": 4, "chunk": c, "of": 8, "edges": ["none", "req"]} for c in range(8)]
@@ -141,8 +153,11 @@ def check_case(case, res=None):
             if tgt[0] == "node":
                 comps = g.nodes[tgt[1]]
                 tix = [tgt[1]]
-            elif tgt[0] == "pair":
+            elif tgt[0] in ("pair", "incr-pair", "all-pair"):
                 comps = [g.nodes[tgt[1]], g.nodes[tgt[2]]]
+                tix = [tgt[1], tgt[2]]
+            elif tgt[0] == "incr-set":
+                comps = set([g.nodes[tgt[1]], g.nodes[tgt[2]]])
                 tix = [tgt[1], tgt[2]]
             elif tgt[0] in ("dict", "incr-dict"):
                 comps = g.explicit_graph()
@@ -268,7 +283,8 @@ def check_case(case, res=None):
                 finally:
                     desc["nodes"] = desc_saved
             else:
-                evaluate(comps, in_graph, {"incr-dict": "incremental", "all-type": "all"}.get(tgt[0], "run"))
+                evaluate(comps, in_graph, {"incr-dict": "incremental", "all-type": "all", "incr-pair": "incremental",
+                                           "incr-set": "incremental", "all-pair": "all"}.get(tgt[0], "run"))
                 registry_intact("evaluation")
         finally:
             g.cleanup()
@@ -300,6 +316,11 @@ def selfcheck():
                 g.cleanup()
 
 
+def G_all_deps(nd):
+    from harness.graphs import all_deps
+    return all_deps(nd)
+
+
 def run_unit(unit, tier):
     res = Result()
     if unit["part"] == "selfcheck":
@@ -307,6 +328,38 @@ def run_unit(unit, tier):
         res.stat("selfcheck_forced_hash_orders_ok", 1)
         return res
     n = unit["n"]
+    if unit["part"] == "prio":
+        from props import c03
+        k = -1
+        for base in c03.gen_shapes(n):
+            rps = [i for i, nd in enumerate(base) if nd["t"] == "rp"]
+            if not rps:
+                continue
+            if n <= 3:
+                prios = list(itertools.product((-1, 0, 1), repeat=len(rps)))
+            else:                                 # one registry point with a priority
+                prios = [tuple(p if j == r else 0 for j in range(len(rps))) for r in range(len(rps)) for p in (-1, 1)]
+            for pr in prios:
+                k += 1
+                if k % unit["of"] != unit["chunk"]:
+                    continue
+                nodes = [dict(nd, out="value") for nd in base]
+                for r, p in zip(rps, pr):
+                    if p:
+                        nodes[r]["prio"] = p
+                for tgt in (["dict"], ["node", n - 1], ["incr-dict"]):
+                    case = {"nodes": nodes, "target": tgt, "perm": None}
+                    try:
+                        vio, norders = check_case(case, res)
+                    except Exception:
+                        import traceback
+                        vio, norders = [("harness:raises", "no exception", traceback.format_exc()[-800:], None)], 0
+                    res.case(nontrivial=any(pr) and any(G_all_deps(nd) for nd in nodes), outcome="typed-orders:%d" % norders,
+                             sample=case if res.evals % 2000 == 5 else None)
+                    for v in vio:
+                        res.violation(v[0], {"nodes": nodes, "target": tgt, "perm": list(v[3]) if v[3] is not None else None}, v[1], v[2])
+        res.maxi("typed_graph_nodes", n)
+        return res
     t = unit.get("t", "plain")
     if n == 4:
         max_dev = BOUNDS[tier].get("max_dev_n4", 1)
@@ -319,7 +372,7 @@ def run_unit(unit, tier):
         for devs in enumx.deviations(["value"] * n, [ALTS] * n, max_dev):
             nodes = shape_to_nodes(n, shape, devs, t)
             for tgt in tlist:
-                if tgt[0] == "subdict" and sum(1 for d in devs if d != "value") > 1:
+                if tgt[0] in ("subdict", "incr-pair", "all-pair", "incr-set", "incr-dict", "all-type") and sum(1 for d in devs if d != "value") > 1:
                     continue
                 if tgt[0] in ("incr-subdict-then-full", "run-adddep-run") and any(d != "value" for d in devs):
                     continue
